@@ -76,6 +76,15 @@ func runMonitors(f family, e *env, s *vt.Sched) []violation {
 	m.c19()
 	monitorsExtra(m)
 	// stored jobs: identity of id / payload and "the jobs behind a bad entry still run" are C12's subject too
+	if len(e.adapters) > 0 && m.props["C07"] {
+		// a stored job that reaches the worker function as another job (its bytes were overwritten
+		// while it waited in the adapter) delivers that other job's outcome
+		for _, v := range append([]violation(nil), m.out...) {
+			if v.Prop == "C01" && (v.Kind == "identity" || v.Kind == "twice") {
+				m.add("C07", "wrong-job", "%s", v.Detail)
+			}
+		}
+	}
 	if len(e.adapters) > 0 && m.props["C12"] {
 		for _, v := range append([]violation(nil), m.out...) {
 			if v.Prop == "C01" && (v.Kind == "identity" || v.Kind == "never-ran") {
@@ -90,6 +99,7 @@ func (m *mon) derive() {
 	m.concAt = append(m.concAt, sample{0, "conc", m.e.conc, 0})
 	lastDeq := map[int]int{} // tid -> position of its latest dequeue operation
 	for i, ev := range m.s.Log {
+		ev = normStatus(ev)
 		if ev.Kind == "ad:deq" || (ev.Kind == "lock" && strings.HasSuffix(siteFunc(ev.Site), ".Dequeue")) {
 			lastDeq[ev.Tid] = i
 		}
@@ -108,7 +118,7 @@ func (m *mon) derive() {
 				v, _ := strconv.Atoi(ev.Val)
 				m.concAt = append(m.concAt, sample{i, "conc", v, 0})
 			}
-			if strings.HasPrefix(fn, "worker.") && strings.HasPrefix(ex, "w.status.Store") {
+			if strings.HasPrefix(fn, "worker.") && (strings.HasPrefix(ex, "w.status.Store") || strings.HasPrefix(ex, "w.status.CompareAndSwap")) {
 				v, _ := strconv.Atoi(ev.Val)
 				m.status = append(m.status, sample{i, "wstatus", v, 0})
 			}
